@@ -334,12 +334,15 @@ def _parse(text_or_chunks):
         return ('err', str(exc))
 
 
-def _check(lines, crlf, chunks, what):
+def _check(lines, crlf, chunks, what, kind=0):
     sep = chr(13) + chr(10) if crlf else chr(10)
     if chunks is None:
         got = _parse(sep.join(lines) + sep)
     else:
-        got = _parse([sep.join(c) + (sep if k + 1 < len(chunks) else '') for k, c in enumerate(chunks)])
+        parts = [sep.join(c) + (sep if k + 1 < len(chunks) else '') for k, c in enumerate(chunks)]
+        # the documented input type is any iterable of strings: list, tuple, one-shot iterator, generator
+        arg = parts if kind == 0 else (tuple(parts) if kind == 1 else (iter(parts) if kind == 2 else (x for x in parts)))
+        got = _parse(arg)
     if got != ('ok', MODEL):
         return False, {{'clause': what, 'lines': lines, 'crlf': crlf, 'chunks': chunks, 'got': repr(got)[:300]}}
     return True, {{}}
@@ -364,14 +367,14 @@ def core_insert(crlf, pos, kind):
     return _check(lines, crlf, None, 'inserted blank/comment line')
 
 
-def core_chunk(crlf, c1, c2):
+def core_chunk(crlf, c1, c2, kind=0):
     cuts = sorted(set([c1, c2]))
     chunks, prev = [], 0
     for c in cuts + [len(CANON)]:
         if c > prev:
             chunks.append(CANON[prev:c])
             prev = c
-    return _check(CANON, crlf, chunks, 'chunking at line boundaries')
+    return _check(CANON, crlf, chunks, 'chunking at line boundaries', kind)
 
 
 def _poison(x):
@@ -488,7 +491,7 @@ def plan(tier, seed, workdir):
                              core_call='core_ws(crlf, li, indent, trail)')
         body += hgen.harness('insert', 'crlf: bool, pos: int, kind: int', [f'0 <= pos <= {n}', '0 <= kind <= 2'],
                              core_call='core_insert(crlf, pos, kind)')
-        body += hgen.harness('chunk', 'crlf: bool, c1: int, c2: int', [f'0 <= c1 <= c2 <= {n}'], core_call='core_chunk(crlf, c1, c2)')
+        body += hgen.harness('chunk', 'crlf: bool, c1: int, c2: int, kind: int', [f'0 <= c1 <= c2 <= {n}', '0 <= kind <= 3'], core_call='core_chunk(crlf, c1, c2, kind)')
         body += hgen.harness('state', 'crlf: bool, li: int', [f'0 <= li < {n}'], core_call='core_state(crlf, li)')
         path = hgen.write_module(workdir, f'c10_{pname}', body)
         for fn in ('ws', 'insert', 'chunk', 'state'):
